@@ -190,11 +190,7 @@ class DynamicLink(Link):
         )
 
         if self.linker.needs_libs:
-            linkers = self._get_linkers(env, self.input_langs)
-            self._internal_options.collect(
-                (i.always_libs(i is self.linker) for i in linkers),
-                (opts.lib(i) for i in self.libs)
-            )
+            self._internal_options.collect(opts.lib(i) for i in self.libs)
 
         if self.linker.needs_package_options:
             self._internal_options.collect(i.link_options(self.linker)
@@ -202,6 +198,16 @@ class DynamicLink(Link):
 
         self._internal_options.collect(extra_options,
                                        forward_opts.link_options)
+
+        if self.linker.needs_libs:
+            # The language runtimes go last: a static library (ours or one
+            # forwarded by another static library) must come before the runtime
+            # it needs, e.g. `main.o libfoo.a -lstdc++` for a C program using a
+            # static C++ library.
+            linkers = self._get_linkers(env, self.input_langs)
+            self._internal_options.collect(
+                i.always_libs(i is self.linker) for i in linkers
+            )
 
     def _fill_output(self, output):
         first(output).runtime_deps.extend(
